@@ -1,6 +1,7 @@
 package getter
 
 import (
+	"bytes"
 	"context"
 	"fmt"
 	"sync"
@@ -90,7 +91,7 @@ func (fx *fakeExchange) GetBlock(ctx context.Context, c cid.Cid) (blocks.Block, 
 }
 
 func (fx *fakeExchange) NewSession(context.Context) exchange.Fetcher { return fx }
-func (fx *fakeExchange) Close() error                                 { return nil }
+func (fx *fakeExchange) Close() error                                { return nil }
 func (fx *fakeExchange) NotifyNewBlocks(context.Context, ...blocks.Block) error {
 	fx.mu.Lock()
 	fx.notify++
@@ -107,7 +108,8 @@ func (fx *fakeExchange) candidate(want cid.Cid, idx int, pos int, spec string) (
 	}
 	hb, err := fx.honest.Get(context.Background(), want)
 	if err != nil {
-		fx.d.t.Fatalf("case %s: honest bitswap block: %v", fx.c.ID, err)
+		fx.d.rep.Inconclusivef("case %s: cannot build the honest bitswap block: %v", fx.c.ID, err)
+		return nil, "none"
 	}
 	honest := hb.RawData()
 	switch kind {
@@ -116,13 +118,22 @@ func (fx *fakeExchange) candidate(want cid.Cid, idx int, pos int, spec string) (
 	case "other":
 		// the honest block of another position of the same block type
 		oc, ok := fx.otherCID(want, rng)
+		for try := 0; ok && fx.wanted(oc) && try < 50; try++ {
+			// a position that this very call also asks for would be a correct answer for that block
+			oc, ok = fx.otherCID(want, rng)
+		}
+		if ok && fx.wanted(oc) {
+			ok = false
+		}
 		if !ok {
 			p, l := shx.Tamper("garble", 0, "bs", honest, rng)
 			return p, l
 		}
 		ob, err := fx.honest.Get(context.Background(), oc)
 		if err != nil {
-			fx.d.t.Fatalf("case %s: other bitswap block: %v", fx.c.ID, err)
+			// the block has no other position of that type (e.g. the namespace lives in one row)
+			p, l := shx.Tamper("garble", 0, "bs", honest, rng)
+			return p, l
 		}
 		if variant%2 == 0 {
 			return ob.RawData(), "other/as-is"
@@ -130,12 +141,12 @@ func (fx *fakeExchange) candidate(want cid.Cid, idx int, pos int, spec string) (
 		// the other position's container re-wrapped under the wanted CID
 		var pbb bitswappb.Block
 		if err := pbb.Unmarshal(ob.RawData()); err != nil {
-			fx.d.t.Fatalf("unwrap: %v", err)
+			return ob.RawData(), "other/as-is"
 		}
 		pbb.Cid = want.Bytes()
 		data, err := pbb.Marshal()
 		if err != nil {
-			fx.d.t.Fatalf("rewrap: %v", err)
+			return ob.RawData(), "other/as-is"
 		}
 		return data, "other/rewrapped"
 	case "trunc", "ext", "garble", "emptyok":
@@ -143,6 +154,17 @@ func (fx *fakeExchange) candidate(want cid.Cid, idx int, pos int, spec string) (
 		return p, l
 	}
 	return nil, "none"
+}
+
+func (fx *fakeExchange) wanted(c cid.Cid) bool {
+	fx.mu.Lock()
+	defer fx.mu.Unlock()
+	for _, w := range fx.order {
+		if w.Equals(c) {
+			return true
+		}
+	}
+	return false
 }
 
 // otherCID derives the CID of a different position for the same block type.
@@ -199,6 +221,9 @@ func (fx *fakeExchange) GetBlocks(ctx context.Context, cids []cid.Cid) (<-chan b
 					break
 				}
 				data, label := fx.candidate(want, base+i, pos, spec)
+				if hb, err := fx.honest.Get(context.Background(), want); err == nil && bytes.Equal(hb.RawData(), data) {
+					label = "correct" // degenerate square: the other position's block is byte-identical
+				}
 				fx.mu.Lock()
 				fx.served[idx] = append(fx.served[idx], label)
 				fx.mu.Unlock()
@@ -247,6 +272,6 @@ func (d *driver) blockStore(kind string) blockstore.Blockstore {
 		bs, _ := bitswap.NewBlockstoreWithMetrics(&bitswap.Blockstore{Getter: d.cached})
 		return bs
 	}
-	d.t.Fatalf("unknown block store %q", kind)
+	bail("unknown block store %q", kind)
 	return nil
 }
